@@ -67,7 +67,7 @@ def generate(rng, tier):
         if t <= 1: shape = None
         elif t == 2: shape = int(rng.integers(1, max(2, Smin // os_ + 1)))
         elif t == 3: shape = [int(rng.integers(1, max(2, Smin // os_ + 1))), int(rng.integers(1, max(2, Smin // os_ + 1)))]
-        elif t == 4: shape = [Smin // os_ + int(rng.integers(0, 2)), Smin // os_ + 1]      # too large on at least one axis
+        elif t == 4: shape = [max(1, Smin // os_ + int(rng.integers(0, 2))), Smin // os_ + 1]      # too large on at least one axis
         else: shape = Smin // os_ if Smin // os_ >= 1 else None                            # the largest accepted
         t = rng.integers(0, 7)
         if t <= 1: scratch = None
@@ -251,6 +251,7 @@ def oracle(c, io):
     if any(abs(a - b / os_) > 1e-12 * b for a, b in zip(io['pixelscale'], c['du'])): return 'output sampling != du/oversample'
     got = _c(io['out'])
     tol = P._tol(io)
+    if got.size == 0: return None
     if 'noscratch' in io:
         d = float(np.max(np.abs(got - _c(io['noscratch']))))
         if d > 1e-12 * (1 + float(np.max(np.abs(got)))): return f"result with scratch ({c['scratch']['size']}, {c['scratch']['content']}) differs from the result without scratch by {d:.3e}"
